@@ -18,6 +18,7 @@ import (
 	"strings"
 	"sync"
 	"sync/atomic"
+	"syscall"
 	"testing"
 	"time"
 )
@@ -532,8 +533,93 @@ func c04RunOnce(u *vfUnit, sc c04Scenario, fault *c04Fault, hookSeed uint64) c04
 	return obs
 }
 
+// vfC04FailClose is a transport whose Close does its work and reports an error all the same (a pipe to a process that
+// is already gone, a second close of a connection).
+type vfC04FailClose struct {
+	*vfEnd
+	err error
+}
+
+func (w vfC04FailClose) Close() error { w.vfEnd.Close(); return w.err }
+
+// vfC04WriterCloseFails: Close on a client whose writer's Close reports an error, while the reply stream stays open until
+// the harness ends it. Whatever the writer's Close says, Close returns only once the receiver is gone: if it returns
+// while the reply stream is still open, the receiver (which nothing can end) is still there and is found as a survivor.
+func vfC04WriterCloseFails(u *vfUnit) {
+	for i, werr := range []error{errors.New("close of the request stream failed"), io.ErrClosedPipe, os.ErrClosed, syscall.EPIPE, io.EOF} {
+		label := fmt.Sprintf("writer-Close-fails(%v)", werr)
+		base := vfGoBaseline()
+		ce, se := vfPipe(vfPipeOpts{ClientKeepRead: true})
+		hs := vfGo(func() {
+			// the peer answers the handshake and then stays silent, its sending direction open
+			var fr vfFramer
+			buf := make([]byte, 64)
+			for {
+				n, err := se.Read(buf)
+				if n > 0 && len(fr.Feed(buf[:n])) > 0 {
+					se.Write(vfPkt{Type: rfVersion, Version: 3}.Frame())
+					return
+				}
+				if err != nil {
+					return
+				}
+			}
+		})
+		c, err := NewClientPipe(ce, vfC04FailClose{ce, werr})
+		if err != nil {
+			u.Inconclusive("%s: connect: %v", label, err)
+			se.Close()
+			ce.ForceClose()
+			return
+		}
+		<-hs
+		if i%2 == 1 {
+			c.Getwd() // (unanswered calls are not part of this scenario: Getwd is answered locally or fails; either is fine)
+		}
+		var cerr error
+		cdone := vfGo(func() { cerr = c.Close() })
+		w, dump := vfAwait(cdone, 60*time.Second)
+		u.Eval("close-with-failing-writer-close/" + fmt.Sprint(werr))
+		u.Count("closes_with_failing_writer_close", 1)
+		switch w {
+		case vfDone:
+			// Close came back although the reply stream is open: is the receiver gone?
+			if leaks := base.Leaks(); len(leaks) > 0 {
+				u.Violation("close-returns-before-receiver-gone", fmt.Sprintf("%s: Close returned %v while the reply stream was still open; %d package goroutine(s) still there:\n%s", label, cerr, len(leaks), vfTrim(strings.Join(leaks, "\n\n"), 2000)), map[string]any{"writer_close_error": fmt.Sprint(werr)})
+			}
+			se.Close()
+			ce.ForceClose()
+		case vfStuck:
+			// Close waits for the receiver, which waits for the reply stream: end it
+			_ = dump
+			se.Close()
+			if w2, d2 := vfAwait(cdone, 120*time.Second); w2 != vfDone {
+				if w2 == vfStuck {
+					u.Violation("close-hangs:writer-close-fails", fmt.Sprintf("%s: Close does not return after the reply stream ended\n%s", label, vfTrim(d2, 2500)), nil)
+				} else {
+					u.Inconclusive("%s: wall-clock cap", label)
+				}
+				ce.ForceClose()
+				return
+			}
+			ce.ForceClose()
+			if leaks := base.Leaks(); len(leaks) > 0 {
+				u.Violation("goroutine-leak:writer-close-fails", fmt.Sprintf("%s: %d package goroutine(s) survive Close:\n%s", label, len(leaks), vfTrim(strings.Join(leaks, "\n\n"), 2000)), nil)
+			}
+		default:
+			u.Inconclusive("%s: wall-clock cap", label)
+			se.Close()
+			ce.ForceClose()
+			return
+		}
+	}
+}
+
 func c04Run(u *vfUnit) {
 	r := u.Rng
+	if u.Index%31 == 7 {
+		vfC04WriterCloseFails(u)
+	}
 	scs := c04Scenarios()
 	sc := scs[u.Index%len(scs)]
 	kind := []string{"s2c-eof", "s2c-error", "c2s-reset", "c2s-writefail", "c2s-reset-ioEOF", "c2s-writefail-ioEOF", "s2c-eof-writer-survives", "s2c-closed-pipe", "c2s-writefail-reader-survives", "c2s-write-late-error", "s2c-eof-before-the-caller-waits"}[(u.Index/len(scs))%11]
